@@ -5,9 +5,11 @@ import json, os, subprocess, sys, shutil, glob, tempfile
 V = '/verif'
 man = json.load(open(V + '/MANIFEST.json'))
 checks = [c['property_id'] for c in man['checks']]
+if os.environ.get('CHECKS'):
+    checks = os.environ['CHECKS'].split(',')
 patches = []
 for d in sys.argv[1:]:
-    patches += sorted(glob.glob(os.path.join(d, '*.diff')))
+    patches += sorted(glob.glob(os.path.join(d, '*.diff'))) if os.path.isdir(d) else [os.path.abspath(d)]
 work = tempfile.mkdtemp(prefix='refmatrix_')
 repo = work + '/repo'
 subprocess.check_call(['rsync', '-a', '--exclude', 'target', '--exclude', '.git', '/repo/', repo + '/'])
@@ -17,7 +19,7 @@ out_path = V + '/refactors/MATRIX.json'
 res = json.load(open(out_path)) if os.path.exists(out_path) else {}
 env = dict(os.environ, VERIF_REPO=repo, VERIF_EVIDENCE_DIR=work + '/evidence')
 for p in patches:
-    name = '%s/%s' % (os.path.basename(os.path.dirname(os.path.dirname(p))), os.path.basename(p))
+    name = '%s/%s' % (os.path.basename(os.path.dirname(p)), os.path.basename(p))
     subprocess.check_call('cd %s && git checkout -q -- . && git clean -fdq' % repo, shell=True)
     r = subprocess.run('cd %s && git apply %s' % (repo, p), shell=True, stdout=subprocess.PIPE, stderr=subprocess.STDOUT)
     if r.returncode != 0:
@@ -30,7 +32,13 @@ for p in patches:
             alarms[c] = [l for l in o.splitlines() if l.startswith('  rule')][:4]
         elif pr.returncode != 0:
             broken[c] = [l for l in o.splitlines() if 'CHECK-BROKEN' in l][:2]
-    res[name] = {'alarms': alarms, 'broken': broken}
+    if os.environ.get('CHECKS') and name in res:
+        res[name]['alarms'].update(alarms); res[name]['broken'].update(broken)
+        for c in checks:
+            if c not in alarms: res[name]['alarms'].pop(c, None)
+            if c not in broken: res[name]['broken'].pop(c, None)
+    else:
+        res[name] = {'alarms': alarms, 'broken': broken}
     print(name, 'alarms', sorted(alarms), 'broken', sorted(broken), flush=True)
     json.dump(res, open(out_path, 'w'), indent=1, sort_keys=True)
 shutil.rmtree(work, ignore_errors=True)
